@@ -10,13 +10,20 @@ def run(chk, failed):
                 "1 ns, interval-1 s, interval s -1 ns, interval s, interval s +1 ns, interval+1 s, 30 s}, every module configuration of "
                 "the product threshold{1,2,3} x send-interval{0,60} x send-once x send-close walked by case index; refreshes inside open "
                 "incidents (the remembered notify times must survive every refresh that still lists the group), dropping and re-listing "
-                "groups; a small parallel batch of histories with a refresh whose storage request times out (real time) in mid-incident; the C14 oracle (threshold, lists, interval and send-once within an incident / quiet period, every incident "
+                "groups; a small parallel batch of histories with a refresh whose storage request times out (real time) in mid-incident; a batch with "
+                "a slow module and a concurrent real refresh (liveness: a stuck coordinator is a violation of 'every incident is announced'); "
+                "~3 % of the cases (about 1 000) are notifier configurations run through the real Configure()/getModuleForClass with modules "
+                "of every class (email, http, null), list keys absent / present-but-empty / patterns, given by viper.Set or as a TOML "
+                "document: per module and group the lists read through the Module interface and 'is a result handed to notifyModule' "
+                "(real checkAndSendResponseToModules, recording notifyModuleFunc) must equal lists_accept computed from the pattern texts; the C14 oracle (threshold, lists, interval and send-once within an incident / quiet period, every incident "
                 "announced - computed from the history alone) is evaluated on every call log of the implementation; non-trivial = at "
                 "least two incidents of one (cluster, group); distinct by the case line")
     G.check_body(chk, failed, "C14", G.oracle_c14, ["clock", "clock", "clock", "groups"], 36000, 600000, CORR)
     chk.assumptions += [
         "clock readings are int64 Unix nanoseconds set through VerifSetClock; time.Time.Sub's saturation and the int64 wrap of send-interval * 1e9 are modelled, the interval theorem assumes 0 <= send-interval * 1e9 < 2^63",
         "interval and send-once are counted within an incident (and within a quiet period for thresholds <= OK): the remembered notify times are forgotten when an incident opens (fix F3), for a module that sent a close notification, and when the group leaves the notifier's list (its record is deleted; a re-listed group starts blank)",
+        "configuration cases: the email module is configured with server localhost:25 and .invalid addresses, the http module with URLs on 127.0.0.1:9; nothing is dialled (notifyModuleFunc is replaced by a recorder, as in the unit tests), so Notify of the real classes (mail / HTTP delivery, templates: C20) is not exercised here",
+        "slow-module scenario: the interleaving is forced through the recording module (its Notify blocks until the refresh's write-lock request is pending); deadline 2.5 s real time per wait; on the unchanged code the refresh takes effect after the response (model: HResponse, then the refresh events)",
         "same one-step-at-a-time / known-cluster / distinct module name assumptions as C13",
     ]
 
